@@ -16,6 +16,7 @@ import (
 func init() {
 	sym.Register("c01.HStep", HStep)
 	sym.Register("c01.HStep2", HStep2)
+	sym.Register("c01.HRel", HRel)
 	sym.Register("c01.HUnclean", HUnclean)
 	sym.Register("c01.HTemp", HTemp)
 }
@@ -54,6 +55,12 @@ func pickOp(t string, tag string) Op {
 	if twoPath(t) {
 		op.Q = sysx.Universe[sym.Choose(tag+"q", n)]
 	}
+	return pickScalars(op, tag)
+}
+
+// pickScalars makes the scalar arguments of op symbolic (within the stated bit bounds).
+func pickScalars(op Op, tag string) Op {
+	t := op.T
 	switch t {
 	case "Mkdir", "MkdirAll":
 		op.Perm = sym.Uint32(tag+"perm") & 0o777
@@ -206,6 +213,7 @@ type worlds struct {
 	model  sysx.Sys
 	kern   *sysx.KernelSys
 	fs     string
+	rel    string // HRel: class of the relative operand(s); replaces the operand kinds in signatures
 }
 
 func setup(kind, seed int) (worlds, bool) {
@@ -236,6 +244,10 @@ func (w worlds) stepc(op Op) (int, int) {
 		kinds = "target:" + op.Target + "," + kinds
 	}
 	label := w.fs + "|" + op.T + "|" + kinds
+	if w.rel != "" {
+		sym.Observe("kinds", kinds)
+		label = w.fs + "|relative|" + op.T + "|" + w.rel
+	}
 	sym.Label(label)
 	var ci, ci2 int
 	res := sym.Outcome(func() { ci, ci2 = apply(w.impl, op) })
@@ -325,6 +337,58 @@ func pickOpFixed(t string, tag string) Op {
 		op.Size = 1
 	}
 	return op
+}
+
+// relative operands, resolved from the current directory
+var relPaths = []string{"b", "a/a", "../b", ".", "..", "", "./a", "b/../a", "a/../c"}
+var relClass = []string{"plain", "plain", "parent-relative", "dot", "dotdot", "empty", "dot-prefix", "inner-dotdot", "inner-dotdot"}
+var cwds = []string{"/w", "/w/a"}
+
+// HRel: Chdir to a directory of the seed tree, then one call (template t) whose
+// operand is a relative path (two-path templates: one side relative, the other
+// a fixed absolute name); errno and the whole tree (read back through absolute
+// paths) must equal the model's (natively: the kernel's, with the process's
+// working directory changed accordingly).
+func HRel(kind, seed, t int) {
+	name := Templates[t]
+	w, ok := setup(kind, seed)
+	if !ok {
+		return
+	}
+	defer w.done()
+	if kind == hx.KOrefa && name == "Symlink" {
+		return
+	}
+	cwd := cwds[sym.Choose("cwd", len(cwds))]
+	ci := w.impl.Chdir(cwd)
+	cm := w.model.Chdir(cwd)
+	if w.kern != nil {
+		ck := w.kern.Chdir(cwd)
+		sym.Assert(ck == cm, "ORACLE|Chdir|"+cwd+"|kernel-"+hx.CodeName(ck)+"|model-"+hx.CodeName(cm))
+	}
+	sym.Assert(ci == cm, "C01|"+w.fs+"|Chdir|"+sysx.Kind(w.model, cwd)+"|errno|got-"+hx.CodeName(ci)+"|want-"+hx.CodeName(cm))
+	if ci != 0 || cm != 0 {
+		return
+	}
+	sym.Reach("relative")
+	op := pickScalars(Op{T: name}, "")
+	pi := sym.Choose("rp", len(relPaths))
+	// the scratch root's parent is not the root in the kernel world
+	sym.Assume(!(cwd == "/w" && relPaths[pi] == ".."))
+	class := relClass[pi]
+	if twoPath(name) {
+		if sym.Choose("side", 2) == 0 {
+			op.P, op.Q = relPaths[pi], "/w/c"
+			class += ",abs"
+		} else {
+			op.P, op.Q = "/w/b", relPaths[pi]
+			class = "abs," + class
+		}
+	} else {
+		op.P = relPaths[pi]
+	}
+	w.rel = class
+	w.step(op)
 }
 
 // HUnclean: a path that is not lexically clean behaves exactly as its Clean() form.
